@@ -53,7 +53,8 @@ def _watchdog(job, pidx, alldone):
     """If the process has not finished after stall_s, record where every thread stands.
     (faulthandler.dump_traceback_later cannot be used: re-arming it in a forked child waits
     for the parent's watchdog thread, which does not exist there.)"""
-    if alldone.wait(job["stall_s"]):
+    # children give up first so that the root still finds their dumps
+    if alldone.wait(job["stall_s"] + (3 if pidx == 0 else 0)):
         return
     names = {t.ident: t.name for t in threading.enumerate()}
     out = []
@@ -66,6 +67,7 @@ def _watchdog(job, pidx, alldone):
         out.append({"thread": names.get(ident, str(ident)), "frames": frames})
     with open(os.path.join(job["outdir"], f"stacks-{pidx}.json"), "w") as fh:
         json.dump(out, fh)
+    os._exit(3)
 
 
 def _emit(obj):
